@@ -287,7 +287,15 @@ func zzH_C08_shared() {
 	if shC {
 		nc = zzNShard("nC")
 	}
-	a := zzMkSlice("a", na)
+	a0 := zzMkSlice("a", na)
+	var a bigslice.Slice = a0
+	matA := zz.AnyBool("materializeA")
+	if matA {
+		// a materialized shared slice is compiled on its own also for a
+		// non-shuffle consumer
+		a = &zzMatSlice{a0, bigslice.ExperimentalMaterialize}
+		zz.Reach("materialized shared slice")
+	}
 	depB, depC := bigslice.Dep{Slice: a, Shuffle: shB}, bigslice.Dep{Slice: a, Shuffle: shC}
 	custom := shB && shC && zz.AnyBool("customPartitioners")
 	if custom {
@@ -334,7 +342,30 @@ func zzH_C12_result() {
 	if shuffle {
 		nb = zzNShard("nConsumer")
 	}
-	b := zzMkSlice("b", nb, bigslice.Dep{Slice: res, Shuffle: shuffle})
+	var view bigslice.Slice = res
+	wantPrefix := 1
+	if zz.AnyBool("prefixedView") {
+		// the consumer redistributes the result by a different key prefix
+		view = bigslice.Prefixed(res, 2)
+		wantPrefix = 2
+		zz.Reach("result used through a re-prefixed view")
+	}
+	b := zzMkSlice("b", nb, bigslice.Dep{Slice: view, Shuffle: shuffle})
+	if shuffle && zz.AnyBool("twoShuffleConsumers") {
+		// the same result redistributed twice in one invocation (e.g. two
+		// Reshards with different shard counts), joined afterwards
+		nc := zzNShard("nConsumer2")
+		c := zzMkSlice("c", nc, bigslice.Dep{Slice: res, Shuffle: true})
+		nd := zzNShard("nJoin")
+		d := zzMkSlice("d", nd, bigslice.Dep{Slice: b, Shuffle: true, Expand: true}, bigslice.Dep{Slice: c, Shuffle: true, Expand: true})
+		dtasks, derr := compile(zzInv(2), d, false)
+		zz.Assert(derr == nil, "compilation with a twice-redistributed result succeeds")
+		if derr == nil {
+			zz.Reach("result redistributed twice")
+			zzCheckGraph(dtasks, nd, false)
+		}
+		return
+	}
 	tasks, err := compile(zzInv(2), b, false)
 	zz.Assert(err == nil, "compilation with a result argument succeeds")
 	if err != nil {
@@ -352,6 +383,7 @@ func zzH_C12_result() {
 		zz.Assert(len(g) == nr, "one re-shuffle task per result task")
 		for i, p := range g {
 			zz.Assert(len(p.Deps) == 1 && p.Deps[0].Head == rtasks[i] && p.Deps[0].Partition == 0, "a re-shuffle task reads its result task")
+			zz.Assert(p.Prefix() == wantPrefix, "a re-shuffle task partitions by the key prefix of the slice the consumer depends on")
 		}
 	}
 	tasks2, _ := compile(zzInv(2), b, false)
@@ -372,7 +404,11 @@ func zzH_C13_compileCache() {
 	}
 	b := zzMkSlice("b", n, bigslice.Dep{Slice: a})
 	b.reads = &reads
-	cs := &zzCachedSlice{b, cache}
+	var cs bigslice.Slice = &zzCachedSlice{b, cache}
+	if zz.AnyBool("prefixedCache") {
+		cs = bigslice.Prefixed(cs, 1)
+		zz.Reach("cache operator under Prefixed")
+	}
 	inv := zzInv(3)
 	tasks, err := compile(inv, cs, false)
 	zz.Assert(err == nil, "compilation succeeds")
